@@ -22,6 +22,7 @@ import (
 	"math/bits"
 	"net"
 	"net/netip"
+	"slices"
 	"strconv"
 	"strings"
 	"sync"
@@ -737,7 +738,9 @@ func (t *Table) MultiBests(id string) [][]*Path {
 			for _, dest := range dests {
 				path := dest.GetMultiBestPath(id)
 				if path != nil {
-					paths = append(paths, path)
+					// GetMultiBestPath returns a sub-slice of the live knownPathList;
+					// copy it while the shard lock is held, the caller reads it later
+					paths = append(paths, slices.Clone(path))
 				}
 			}
 		}
